@@ -867,7 +867,14 @@ func CallsMethodNamed(name, recvSub string) func(*ssa.CallCommon) bool {
 			return recvSub == "" || strings.Contains(c.Value.Type().String(), recvSub)
 		}
 		f := c.StaticCallee()
-		if f == nil || f.Name() != name {
+		if f == nil {
+			return false
+		}
+		fname := f.Name()
+		if f.Origin() != nil {
+			fname = f.Origin().Name()
+		}
+		if fname != name {
 			return false
 		}
 		if recvSub == "" {
